@@ -15,6 +15,7 @@ import Anko.Model.Eval
 import Anko.Model.EnvApi
 import Anko.Model.Literal
 import Anko.Model.PrecTable
+import Anko.Model.Scanner
 
 open Anko
 
@@ -107,8 +108,45 @@ def showTok : Pratt.Tok → String
   | .lp => "("
   | .rp => ")"
 
+def opTokName (o : String) : String :=
+  match [("!=", "NEQ"), ("==", "EQEQ"), ("= <-", "EQOPCHAN"), ("??", "NILCOALESCE"), ("++", "PLUSPLUS"), ("+=", "PLUSEQ"),
+    ("--", "MINUSMINUS"), ("-=", "MINUSEQ"), ("*=", "MULEQ"), ("/=", "DIVEQ"), (">=", "GE"), (">>", "SHIFTRIGHT"),
+    ("<-", "OPCHAN"), ("<=", "LE"), ("<<", "SHIFTLEFT"), ("||", "OROR"), ("|=", "OREQ"), ("&&", "ANDAND"), ("&=", "ANDEQ"),
+    ("...", "VARARG")].lookup o with
+  | some n => n
+  | none => "?"
+
+def hexStr (s : String) : String := Sexp.hexBytes s.toUTF8.toList
+
+def showScanTok (t : Scan.Token) : String :=
+  let body := match t.tok with
+    | .eof => "EOF:"
+    | .ident s => "IDENT:" ++ hexStr s
+    | .kw s => s.toUpper ++ ":" ++ hexStr s
+    | .number s => "NUMBER:" ++ hexStr s
+    | .str s => "STRING:" ++ hexStr s
+    | .op o => opTokName o ++ ":" ++ (if o == "..." then "" else hexStr o)
+    | .ch c => "CH:" ++ hexStr (String.singleton c)
+  s!"{body}@{t.pos.line}:{t.pos.col}"
+
+def handleLex (h : String) : String :=
+  match Sexp.unhexBytes h.toList with
+  | none => "bad-args"
+  | some bs =>
+    if bs.any (· ≥ 128) then "unsupported non-ascii"
+    else
+      let src := String.ofList (bs.map (fun b => Char.ofNat b.toNat))
+      let (toks, err) := Scan.lex src
+      let tail := match err with
+        | none => "ok"
+        | some (.msg m, p) => s!"err:{hexStr m}@{p.line}:{p.col}"
+        | some (.fuel, _) => "model-fuel"
+      " ".intercalate (toks.map showScanTok ++ [tail])
+
 def handleOps (cmd : String) (args : List Sexp) : String :=
   match cmd, args with
+  | "lex", [] => handleLex ""
+  | "lex", [.atom h] => handleLex h
   | "prmin", [t] => (match decodePTree t with
       | some tr => " ".intercalate ((Pratt.pr PrecTable.genTbl 0 tr).map showTok)
       | none => "bad-args")
